@@ -28,6 +28,7 @@ type c20TarEnt struct {
 var c20TypeFlag = map[string]byte{
 	"reg": tar.TypeReg, "dir": tar.TypeDir, "sym": tar.TypeSymlink, "hard": tar.TypeLink,
 	"char": tar.TypeChar, "block": tar.TypeBlock, "fifo": tar.TypeFifo, "rega": tar.TypeRegA, "cont": tar.TypeCont,
+	"xglobal": tar.TypeXGlobalHeader, // PAX global header: its path / linkpath records carry Name / Link
 }
 
 func (e c20TarEnt) payload() []byte {
@@ -36,6 +37,12 @@ func (e c20TarEnt) payload() []byte {
 	}
 	switch e.Type {
 	case "reg", "rega", "cont", "":
+	case "xglobal":
+		rec := c20PaxRecord("path", e.Name)
+		if e.Link != "" {
+			rec += c20PaxRecord("linkpath", e.Link)
+		}
+		return []byte(rec)
 	default:
 		return nil
 	}
@@ -106,6 +113,12 @@ func c20RawEntry(w *bytes.Buffer, e c20TarEnt) {
 		flag = tar.TypeReg
 	}
 	data := e.payload()
+	if e.Type == "xglobal" {
+		c20RawHeader(w, "pax_global_header", "", flag, int64(len(data)), 0o644)
+		w.Write(data)
+		c20Pad(w, len(data))
+		return
+	}
 	if len(e.Name) > 100 || len(e.Link) > 100 {
 		if e.Fmt == "gnu" {
 			if len(e.Name) > 100 {
@@ -156,7 +169,7 @@ func c20BuildTar(ents []c20TarEnt, gz bool) []byte {
 			flag = tar.TypeReg
 		}
 		data := e.payload()
-		if e.Fmt != "raw" {
+		if e.Fmt != "raw" && e.Type != "xglobal" {
 			var one bytes.Buffer
 			tw := tar.NewWriter(&one)
 			h := &tar.Header{Name: e.Name, Linkname: e.Link, Typeflag: flag, Mode: e.Mode, Size: int64(len(data))}
